@@ -42,10 +42,15 @@ Definition significand_mask : N := 4503599627370495.     (* 0x000fffffffffffff *
 Definition one_mask : N := 4607182418800017408.          (* 0x3ff0000000000000 *)
 Definition get_exponent (bits : N) : f64 := f_of_int (Z.of_N (N.shiftr (N.land bits exponent_mask) 52) - 1023).
 Definition get_significand_plus_one (bits : N) : f64 := fb (N.lor (N.land bits significand_mask) one_mask).
-Definition build_float64 (exponent : Z) (sp1 : f64) : f64 :=
-  if 1023 <? exponent then f64_pinf          (* repaired: saturate beyond the largest finite binade *)
+Definition build_float64_raw (exponent : Z) (sp1 : f64) : f64 :=
+  if 1023 <? exponent then f64_pinf          (* repaired (F7): saturate beyond the largest finite binade *)
   else fb (N.lor (N.land (Z.to_N (((exponent + 1023) * 4503599627370496) mod 18446744073709551616)) exponent_mask)
                  (N.land (bits_of_f64 sp1) significand_mask)).
+(* repaired (F9): a significand that rounding has brought up to 2 is the first value of the next binade
+   (`if significandPlusOne >= 2 { exponent++; significandPlusOne /= 2 }`); build_float64_raw is the code before that repair *)
+Definition build_float64 (exponent : Z) (sp1 : f64) : f64 :=
+  if fle c_two sp1 then build_float64_raw (exponent + 1) (fdiv sp1 c_two)
+  else build_float64_raw exponent sp1.
 
 Section Libm.
 Variable L : libm.
